@@ -336,7 +336,7 @@ theorem releaseGet_one (a : Actor) (d : Id × List Node) (senders : List Sender)
     (h : alGet a.getSenders d.1 = some senders) :
     (a.releaseGetCallers [d]).events = a.events ++ senders.map (closingEvent d.2) ∧
     alGet (a.releaseGetCallers [d]).getSenders d.1 = none := by
-  simp only [releaseGetCallers, List.foldl_cons, List.foldl_nil, h]
+  simp only [releaseGetCallers, List.foldl_cons, List.foldl_nil, releaseGetOne, h]
   exact ⟨trivial, alRemove_absent _ _⟩
 
 /-- …each with exactly one closing event: the node list for find_node / get_closest_nodes callers,
@@ -350,7 +350,7 @@ theorem releasePut_one (a : Actor) (d : Id × Option PutErr) (cs : List Nat)
     (h : alGet a.putSenders d.1 = some cs) :
     (a.releasePutCallers [d]).events = a.events ++ cs.map (fun c => Event.putResult c (putOutcome d)) ∧
     alGet (a.releasePutCallers [d]).putSenders d.1 = none := by
-  simp only [releasePutCallers, List.foldl_cons, List.foldl_nil, h]
+  simp only [releasePutCallers, List.foldl_cons, List.foldl_nil, releasePutOne, h]
   exact ⟨trivial, alRemove_absent _ _⟩
 
 /-! ### expired requests do not pile up -/
